@@ -1,4 +1,4 @@
-\* timing store, quick: 2 wavefronts, 2 lanes, 2 SIMDs, 2 scalar granules, all behaviours of <= 3 steps
+\* timing store, quick: 2 wavefronts, 2 lanes, 2 SIMDs, 2 scalar granules, 2 vector granules per lane, all behaviours of <= 3 steps
 SPECIFICATION PSpec
 CONSTANTS
   Mode = "tim"
@@ -10,13 +10,13 @@ CONSTANTS
   OrVal <- MCOr
   NSimd = 2
   SFileSize = 4
-  LaneStride = 3
+  LaneStride = 4
   SGran = 2
-  VGran = 1
+  VGran = 2
   ESRegs = 4
   EVRegs = 4
   AllocS = {2}
-  AllocV = {1, 2}
+  AllocV = {2}
   MaxOps = 3
   Deviations = {}
 INVARIANTS Refines RYW Alias
